@@ -361,6 +361,35 @@ def variable_signature(b, l):
     return "|".join(sorted(out))
 
 
+def body_fingerprint(j):
+    """Name-free summary of a function body: block count, terminator kinds, callee base names, integer constants.  Two bodies
+    with the same fingerprint, arity and (in the crate) no other taker are taken to be the same function under another name
+    or in another place (associated function <-> free function <-> method of another type)."""
+    import hashlib
+    terms, calls, consts = [], [], []
+
+    def walk(o):
+        if isinstance(o, dict):
+            k = o.get("k")
+            if isinstance(k, dict) and "ty" in k and isinstance(k.get("v"), dict) and "int" in k["v"]:
+                consts.append(str(k["v"]["int"]))
+            for v in o.values():
+                walk(v)
+        elif isinstance(o, list):
+            for v in o:
+                walk(v)
+    for bl in j.get("blocks", []):
+        t = bl["t"]
+        terms.append(t["k"])
+        if t["k"] == "call":
+            d = t["callee"].get("def", "?")
+            calls.append(re.sub(r"<.*?>", "", d).split("::")[-1])
+        walk(bl["s"])
+        walk({x: y for x, y in t.items() if x != "callee"})
+    key = "%d|%s|%s|%s" % (len(j.get("blocks", [])), ",".join(terms), ",".join(calls), ",".join(sorted(consts)))
+    return hashlib.sha256(key.encode()).hexdigest()[:20]
+
+
 class Facts:
     def __init__(self, d, which="lib"):
         self.dir = d
@@ -371,7 +400,13 @@ class Facts:
         self.fn_renamed = {}
         self.inlined = {}
         if which == "lib" and os.environ.get("PFA_NO_VARNAMES") != "1":
+            p = self._canonical_adt_paths(p)
             self._canonical_function_names(p)
+            if getattr(self, "_tmp_facts", None):
+                try:
+                    os.remove(self._tmp_facts)
+                except OSError:
+                    pass
             self._canonical_const_names()
             self._canonical_field_names()
             self.inlined = {}
@@ -430,6 +465,17 @@ class Facts:
             back = [g2 for g2 in gone if g2.rsplit("::", 1)[-1] == base and ref[g2]["sig"] == ref[g]["sig"] and ref[g2]["argc"] == ref[g]["argc"]]
             if len(cands) == 1 and len(back) == 1 and cands[0] not in pairs:
                 pairs[cands[0]] = g
+                continue
+            if cands:
+                continue
+            # the same body under another name in another place (associated function <-> free function <-> method of
+            # another type): identical fingerprint and arity, one candidate, one claimant
+            fp = ref[g].get("fp")
+            if fp:
+                cands = [n for n in new if not n.startswith("<") and cur[n].get("argc") == ref[g]["argc"] and body_fingerprint(cur[n]) == fp]
+                back = [g2 for g2 in gone if ref[g2].get("fp") == fp and ref[g2]["argc"] == ref[g]["argc"]]
+                if len(cands) == 1 and len(back) == 1 and cands[0] not in pairs:
+                    pairs[cands[0]] = g
         if not pairs:
             return
         raw = open(path).read()
@@ -438,6 +484,41 @@ class Facts:
             cs, gs = c.replace("preflate_rs::", "", 1), g.replace("preflate_rs::", "", 1)
             self.fn_renamed[c] = g
         self.j = json.loads(raw)
+
+    # ---- nor the module a type lives in ---------------------------------------------------------------------
+    def _canonical_adt_paths(self, path):
+        """A struct / enum moved to another module (same name, same fields or variants) gets its reference path back — and with
+        it the paths of its methods, and every signature that mentions it.  Returns the path of the (possibly rewritten) fact
+        file to continue with."""
+        rp = os.path.join(os.path.dirname(os.path.dirname(os.path.abspath(__file__))), "reference", "adtshapes.json")
+        if not os.path.exists(rp):
+            return path
+        ref = json.load(open(rp))
+        adts = self.j.get("adts", {})
+
+        def shape(v):
+            return [[var.get("name"), [[f["name"], f["ty"]] for f in var.get("fields", [])]] for var in v.get("variants", [])]
+        gone = [a for a in ref if a not in adts]
+        new = [a for a in adts if a not in ref and a.startswith("preflate_rs::")]
+        pairs = {}
+        for g in gone:
+            base = g.rsplit("::", 1)[-1]
+            cands = [n for n in new if n.rsplit("::", 1)[-1] == base and json.dumps(shape(adts[n])).replace(n.rsplit("::", 1)[0], g.rsplit("::", 1)[0]) == json.dumps(ref[g])]
+            if len(cands) == 1:
+                pairs[cands[0]] = g
+        if not pairs:
+            return path
+        raw = open(path).read()
+        for c, g in pairs.items():
+            raw = re.sub(re.escape(c) + r"(?![A-Za-z0-9_])", g.replace("\\", "\\\\"), raw)
+            self.fn_renamed["type:" + c] = g
+        self.j = json.loads(raw)
+        import tempfile
+        fd, tmp = tempfile.mkstemp(prefix="pfa-facts-", suffix=".json")
+        with os.fdopen(fd, "w") as fh:
+            fh.write(raw)
+        self._tmp_facts = tmp
+        return tmp
 
     # ---- nor the names of struct fields -----------------------------------------------------------------
     def _canonical_field_names(self):
